@@ -84,7 +84,9 @@ Definition op_ok (f : fs) (o : op) : bool :=
     fresh_at f d i &&
     match k with KFile => match content with [] => true | _ => false end | KDir => true end &&
     forallb (fun e => match e_path e with [] => false | _ => true end && negb (ino_used f (e_ino e))
-                      && negb (N.eqb (e_ino e) i)) content
+                      && negb (N.eqb (e_ino e) i)) content &&
+    (* the arriving tree is a tree: every entry's parent is the arriving directory or a directory in it *)
+    forallb (fun e => match parent (e_path e) with [] => true | pp => fs_isdir content pp end) content
   end.
 
 (* --------------------------------------------------------------- abstract events and replay *)
